@@ -105,8 +105,17 @@ package config
 //@   modifies *
 // C10: variables defined at the top level of a configuration file survive the merge into the
 // destination configuration (mergo keeps the destination's container and drops the source's: defect D12)
+//@   ghostlocal gMergedVars variables.Container
+//@   ghostlocal gVarsMerged bool
+//@   ghostlocal gMergoErr error
+//@   callsite mergo.Merge
+//@     ghost gMergoErr = result
 //@   callsite Container.Merge
 //@     requires #C10.config-level-variables-are-merged recv == cfg.Variables && arg0 == src.Variables
+//@     ghost gMergedVars = result
+//@     ghost gVarsMerged = true
+//@   ensures #C10.source-variables-survive-the-merge result == nil && src != nil && src.Variables != nil ==> (gVarsMerged && cfg.Variables == gMergedVars) || cfg.Variables == src.Variables
+//@   ensures #C15.mergo-error-is-returned gMergoErr != nil ==> result != nil
 //@ func buildFromDefinition
 //@   requires def != nil && lc != nil
 //@   modifies *
@@ -167,27 +176,47 @@ package config
 //@   ensures #C15.config-or-error result#1 == nil ==> result != nil
 //@   ensures #C15.config-has-variables result != nil ==> result.Variables != nil
 //@   ensures #C15.nil-config-only-with-a-real-error result == nil && isNF(result#1) ==> file != ""
+// C17 / C10: a step of the load that fails fails the load; a loaded configuration defines Root (the directory
+// of the configuration file)
+//@   ghostlocal stepFailed bool
+//@   ensures #C17.failed-step-fails-the-load stepFailed ==> result#1 != nil
+//@   ensures #C10.root-is-defined result#1 == nil ==> calls(Set) == 1
+//@   callsite Set
+//@     requires #C10.root-is-the-configuration-directory recv == cl.dst.Variables && arg0 == "Root" && arg1 == boxstr(cl.dir)
+//@   callsite LoadGlobalConfig
+//@     ghost stepFailed = stepFailed || result#1 != nil
+//@   callsite load
+//@     ghost stepFailed = stepFailed || result#1 != nil
 //@   callsite resolveDefaultConfigFile
 //@     assume result#1 == nil ==> fileExists(result) && isAbs(result) // the default file is found by walking up from the (absolute) start directory with FileExists
 //@   callsite decode
 //@     assume !isNF(result#1) // mapstructure's errors are its own
+//@     ghost stepFailed = stepFailed || result#1 != nil
 //@   callsite buildFromDefinition
 //@     assume !isNF(result#1) && loaderOK(cl) && cl.dst == old(cl.dst) && cl.dst != nil && cl.dst.Variables != nil // errors of the builders are made from parts of the definition (fmt.Errorf without the sentinel); the builders are handed the definition only, not the loader: not verified here
+//@     ghost stepFailed = stepFailed || result#1 != nil
 //@   callsite merge
 //@     assume !isNF(result) && loaderOK(cl) && cl.dst == old(cl.dst) && cl.dst != nil && cl.dst.Variables != nil // Config.merge returns mergo's error or nil and keeps a (merged) Variables container; the loader is not touched
+//@     ghost stepFailed = stepFailed || result != nil
 //@ func (*Loader).LoadGlobalConfig
 //@   requires loaderOK(cl) && cl.dst != nil && cl.dst.Variables != nil
 //@   modifies *
+//@   ghostlocal stepFailed bool
+//@   ensures #C17.failed-step-fails-the-load stepFailed ==> result#1 != nil
 //@   ensures loaderOK(cl) && cl.dst == old(cl.dst) && cl.imports == old(cl.imports) && cl.dst.Variables != nil
 //@   ensures #C15.never-not-found !isNF(result#1)
 //@   callsite load
 //@     assume cl.dst.Variables != nil // load reads files and merges maps: it never touches the destination configuration
+//@     ghost stepFailed = stepFailed || result#1 != nil
 //@   callsite decode
 //@     assume !isNF(result#1) // mapstructure's errors are its own
+//@     ghost stepFailed = stepFailed || result#1 != nil
 //@   callsite buildFromDefinition
 //@     assume !isNF(result#1) && loaderOK(cl) && cl.dst == old(cl.dst) && cl.imports == old(cl.imports) && cl.dst.Variables != nil // as in Load
+//@     ghost stepFailed = stepFailed || result#1 != nil
 //@   callsite merge
 //@     assume !isNF(result) && loaderOK(cl) && cl.dst == old(cl.dst) && cl.imports == old(cl.imports) && cl.dst.Variables != nil // as in Load
+//@     ghost stepFailed = stepFailed || result != nil
 // mergo panics on maps it cannot combine (YAML map[interface{}]interface{} into JSON map[string]interface{}):
 // the panic is recovered here and returned as an error (fix D23)
 //@ func mergeImported
@@ -206,6 +235,14 @@ package config
 //@   ensures #C17.unparsable-file-is-an-error parseFailed ==> result#1 != nil
 //@ func (*Loader).readURL
 //@   nomod
+//@   ghostlocal fetchFailed bool
+//@   callsite http.Get
+//@     ghost fetchFailed = fetchFailed || result#1 != nil
+//@   callsite ReadAll
+//@     ghost fetchFailed = fetchFailed || result#1 != nil
+//@   callsite unmarshalData
+//@     ghost fetchFailed = fetchFailed || result#1 != nil
+//@   ensures #C17.unreachable-url-is-an-error fetchFailed ==> result#1 != nil
 //@ func (*Loader).unmarshalData
 //@   nomod
 //@   ghostlocal decodeFailed bool
